@@ -270,9 +270,9 @@ def run(tier, seed):
         mcs = [dict(name='MC_C17_K3', cfgs=full, k=3, saves=1, classes=ALL_CLASSES),
                dict(name='MC_C17_K2_S2', cfgs=full, k=2, saves=2, classes=ALL_CLASSES)]
         rps = [dict(name='MC_C17_dump_K2', cfgs=full, k=2, saves=1, classes=ALL_CLASSES),
-               dict(name='MC_C17_dump_K3_Wait', cfgs=configs(BASES[2:], ['kw']) + configs(BASES[:1], ['bad']), k=3, saves=1,
+               dict(name='MC_C17_dump_K3_Wait', cfgs=configs([BASES[3], BASES[4]], ['kw']) + configs(BASES[:1], ['bad']), k=3, saves=1,
                     classes=['Wait']),
-               dict(name='MC_C17_dump_K3_FinExc', cfgs=configs([BASES[3], BASES[4]], ['pos']), k=3, saves=1, classes=['Fin', 'Exc'])]
+               dict(name='MC_C17_dump_K3_FinExc', cfgs=configs([BASES[5]], ['pos']), k=3, saves=1, classes=['Fin', 'Exc'])]
 
     violations = 0
     states = transitions = 0
